@@ -32,7 +32,6 @@ import (
 	"math/rand"
 	"os"
 	"path/filepath"
-	"reflect"
 	"sort"
 	"strconv"
 	"strings"
@@ -304,13 +303,13 @@ func runImpl(c scase) runObs {
 		"bucket", c.KeySpace, &fakeS3{env: env}, backoff.WithMaxRetries(&backoff.ZeroBackOff{}, c.Retries), c.MaxReuse)
 
 	// unexported worker state, read only while the worker goroutine is parked or gone
-	tv := reflect.ValueOf(tp).Elem()
+	// (through the verif hook VerifBufferState, not by reflection on field names: a rename in the
+	// transporter is then followed by the hook file like any other reference)
 	bufs := &identities{ids: map[unsafe.Pointer]int{}}
 	gzs := &identities{ids: map[unsafe.Pointer]int{}}
 	state := func() (int64, int, int) {
-		return tv.FieldByName("bufUsedCount").Int(),
-			bufs.id(tv.FieldByName("gzBuf").UnsafePointer()),
-			gzs.id(tv.FieldByName("gz").UnsafePointer())
+		used, buf, gz := tp.(*transporter.S3Transporter).VerifBufferState()
+		return int64(used), bufs.id(unsafe.Pointer(buf)), gzs.id(unsafe.Pointer(gz))
 	}
 	state()
 
